@@ -4,7 +4,7 @@ CONSTANTS
   MinLen = 1
   MaxLen = 99
   Modes = {"all"}
-  Styles = {"split", "coro", "block", "poll"}
+  Styles = {"split", "coro", "loop", "block", "poll"}
   MaxPub = 4
   MaxBatch = 2
   MaxJoin = 3
